@@ -215,3 +215,34 @@ def use_pair(a, v):
     n = STNode(v)
     n.tag = "new"
     return p[0].tag
+
+
+def opt_or_default(x):
+    # round 4: `a or b` with a: Optional[str], b: str is a str
+    y = x or ""
+    return y + "!"
+
+
+def opt_or_len(x, d):
+    return len(x or d)
+
+
+def pylist_concat(a, b, zs):
+    # round 4: python-level list displays with symbolic elements, concatenated with each other and with a symbolic list
+    head = [a] + [b, a]
+    out = head + zs
+    out2 = zs + [b]
+    return out, out2, (a,) + (b,)
+
+
+def opt_param_narrow(d, key):
+    # round 4 (C03 #5): an Optional PARAMETER is narrowed by `if key is not None:`
+    if key is not None:
+        return d[key]
+    return 0
+
+
+def opt_param_narrow_early(d, key):
+    if key is None:
+        return 0
+    return d[key]
